@@ -464,4 +464,38 @@ theorem modIdentAt_in_domain : (i : Nat) → (args : List Val) → identsInDomai
       | _ => simpa [identsInDomain] using h
     simp [Old.modIdentAt, modIdentAt_in_domain i r hr]
 
+/-! ### the canonical shape of generated / plain method bodies -/
+
+def fmtNameOf : Gen.FRef → String
+  | .name s => s
+  | .cls _ => "payload"
+  | .clsList _ => "payload-list"
+
+/-- `to_pack_list` of a VariablePayload: one entry per format, its attribute(s) in `names` order (8 for `bits`) -/
+def canonPack : List Gen.FRef → Nat → List Code.PEntry
+  | [], _ => []
+  | r :: rs, i =>
+    if fmtNameOf r == "bits" then
+      { fmt := "bits", args := (List.range 8).map (fun k => Code.PExpr.attr (i + k)) } :: canonPack rs (i + 8)
+    else { fmt := fmtNameOf r, args := [.attr i] } :: canonPack rs (i + 1)
+
+/-- the code of a class that packs its attributes as they are, passes the unpacked values straight to the constructor and
+    stores the constructor arguments as they are — except `identifier % 65536` at `identAt` -/
+def canonicalCode (p : Gen.PayloadDef) (attrs : List String) (identAt : Option Nat) : Code.ClassCode :=
+  { name := p.name, attrs := attrs, pack := canonPack p.refs 0,
+    unpackParams := attrs.length, ctorArgs := (List.range attrs.length).map Code.UExpr.param, ctorParams := attrs.length,
+    init := (List.range attrs.length).map (fun j => if some j = identAt then Code.IExpr.modParam j 65536 else .param j) }
+
+/-- hand-written classes whose methods do more than that (each has its own bridge theorem or is compared by the driver) -/
+def specialOld : List String :=
+  ["ipv8.messaging.payload.IntroductionRequestPayload", "ipv8.messaging.payload.IntroductionResponsePayload",
+   "ipv8.peerdiscovery.payload.DiscoveryIntroductionRequestPayload", "ipv8.peerdiscovery.payload.SimilarityRequestPayload",
+   "ipv8.peerdiscovery.payload.SimilarityResponsePayload"]
+
+def codeIsCanonical (p : Gen.PayloadDef) : Bool :=
+  let c := Gen.codeOf p.name
+  if p.kind == "old" then
+    specialOld.contains p.name || c == canonicalCode p c.attrs (Old.identPos (Old.short p.name))
+  else c == canonicalCode p p.names none
+
 end Ipv8.C02
